@@ -37,7 +37,7 @@ def check (inp out : List String) : Verdict :=
   | "bus" :: n :: acts, [lists] =>
     match n.toNat?, acts.mapM parseAct?, parseLists? lists with
     | some n, some acts, some impl =>
-      let cap := Consts.queueSizeCommand
+      let cap := effectiveCapacity
       let final := acts.foldl (fun s a => match a with
         | .send id => step s (.send id)
         | .recv i k => recvK s i k (k + 2)) (init Nat n)
@@ -52,6 +52,7 @@ def check (inp out : List String) : Verdict :=
         let h := impl.getD i []
         [ ("in_order_subsequence", isSublist h sentIds),
           ("lossless_under_capacity", decide (maxOutstanding i > cap) || h == sentIds),
+          ("lossless_with_fewer_than_16_outstanding", decide (maxOutstanding i > statedCapacity) || h == sentIds),
           ("newest_processed", h.reverse.take (min cap sentIds.length) == sentIds.reverse.take (min cap sentIds.length)) ]
       { agree := m == impl, model := showLists m, specFail := (failing cl).eraseDups }
     | _, _, _ => .bad "bus tokens"
